@@ -112,6 +112,8 @@ var scenarios = []scenario{
 	{name: "timeout-race-late-ok", threads: [][]string{{"reload-full-slow"}, {"acq0", "use0", "rel0"}}, env: "ok"},
 	{name: "timeout-race-late-err", threads: [][]string{{"reload-full-slow"}, {"acq0", "use0", "rel0"}}, env: "err"},
 	{name: "timeout-race-then-reload (rocksdb-like)", rocksLike: true, threads: [][]string{{"reload-full-slow", "reload-partial"}, {"acq0", "use0", "rel0"}}, env: "ok"},
+	{name: "stats-x-shutdown-x-reader", threads: [][]string{{"stats"}, {"shutdown"}, {"acq0", "use0", "rel0"}}},
+	{name: "stats-x-shutdown (rocksdb-like)", rocksLike: true, threads: [][]string{{"stats", "stats"}, {"shutdown"}}},
 	{name: "bad-reload-x-reader-x-stats", threads: [][]string{{"reload-full-bad"}, {"acq0", "use0", "rel0"}, {"stats"}}},
 }
 
